@@ -242,12 +242,14 @@ def event_rows(ref, i, thr, bin_type="above"):
     return RS.event_p(ref, i, "no", 0, iv)       # (observed event 0/1, probability of the event)
 
 
-REL_EDGES = [0, 0.05, 0.15, 0.25, 0.35, 0.45, 0.55, 0.65, 0.75, 0.85, 0.95, 1]
+REL_EDGES_DEFAULT = [0, 0.05, 0.15, 0.25, 0.35, 0.45, 0.55, 0.65, 0.75, 0.85, 0.95, 1]
 
 
 def d_reliability(ctx, inputs, paths, ref, opt):
-    thr, bin_type = opt
-    r, fig, out = render(paths + ["-m", "reliability", "-r", gen.fmt_num(thr), "-b", bin_type])
+    thr, bin_type = opt[:2]
+    # optional third entry: bin edges given with -q; they need not span [0, 1] (probabilities outside them are in no bin)
+    REL_EDGES = list(opt[2]) if len(opt) > 2 else REL_EDGES_DEFAULT
+    r, fig, out = render(paths + ["-m", "reliability", "-r", gen.fmt_num(thr), "-b", bin_type] + (["-q", ",".join(gen.fmt_num(e) for e in REL_EDGES)] if len(opt) > 2 else []))
     if r.kind != "ok":
         return ctx.fail("reliability:%s:%s" % (r.kind, r.site or "rejected"))
     lbl = lines_by_label(fig)
@@ -275,7 +277,12 @@ def d_reliability(ctx, inputs, paths, ref, opt):
         if inset_axes and len(inset_axes[0].get_lines()) == len(inputs):
             ctx.flag("inset")
             n_in_bins = float(np.nansum(np.asarray(inset_axes[0].get_lines()[i].get_ydata(), dtype=float)))
-            if abs(n_in_bins - len(rows)) > 1e-9:
+            n_in_range = sum(1 for o, p in rows if REL_EDGES[0] <= p <= REL_EDGES[-1])
+            if len(opt) > 2:
+                if n_in_range < len(rows):
+                    ctx.flag("outside-edges")
+                ctx.require(abs(n_in_bins - n_in_range) <= 1e-9, "reliability:bin-counts-with-custom-edges", in_bins=n_in_bins, cases_within_the_edges=n_in_range, edges=REL_EDGES)
+            elif abs(n_in_bins - len(rows)) > 1e-9:
                 ctx.fail("reliability:case-not-in-exactly-one-bin", in_bins=n_in_bins, valid_cases=len(rows),
                          probabilities_equal_to_1=sum(1 for o, p in rows if p == 1.0))
         if main:
@@ -1047,7 +1054,7 @@ DIAGRAMS = {
     "qq-scatter": (d_qq_scatter, [("qq", False), ("scatter", True), ("scatter", False)]),
     "hist-sort": (d_hist_sort, [("hist", "fcst"), ("sort", "fcst"), ("sort", "obs"), ("hist", "obs")]),
     "pithist": (d_pithist, [None]),
-    "reliability": (d_reliability, [(2.0, "above"), (1.0, "below"), (3.0, "above=")]),
+    "reliability": (d_reliability, [(2.0, "above"), (1.0, "below"), (3.0, "above="), (2.0, "above", (0.2, 0.4, 0.6, 0.8))]),
     "roc": (d_roc, [(2.0, "above"), (1.0, "below=")]),
     "points": (d_points, ["taylor", "error", "performance"]),
     "spreadskill": (d_spreadskill, [(0.1, 0.9), (0.9, 0.1)]),
@@ -1096,7 +1103,7 @@ def run(tier, only=None):
     st = explore.explore(harness, mode="full", params={"diagrams": diagrams}, repo_root=core.REPO, time_cap=(400 if tier == "quick" else 3000))
     return [core.Sub.from_e1("figures", st, bound="full product: %d diagram families x their option menus x {1,2,3} inputs x {partly missing, complete} dataset" % len(diagrams),
                              rule="one execution = one figure rendered by the driver; main series (by legend label) compared with reference statistics; non-trivial = more than one input",
-                             required_flags=tuple(f for d, f in (("reliability", "inset"), ("fss", "fss-scales"), ("impact", "impact")) if d in diagrams), wall=time.time() - t0)]
+                             required_flags=tuple(f for d, f in (("reliability", "inset"), ("reliability", "outside-edges"), ("fss", "fss-scales"), ("impact", "impact")) if d in diagrams), wall=time.time() - t0)]
 
 
 def replay(rec):
